@@ -352,6 +352,22 @@ def tunnel_endpoint_forwards(scan):
     return res
 
 
+def statistics_endpoint_forwards_remove(scan):
+    """StatisticsEndpoint inherits Endpoint's list handling and reads the wrapped endpoint's lists through __getattribute__:
+    the inherited add_* mutate the inner lists in place (= forwarding), the inherited remove_listener REBINDS the lists on the
+    wrapper.  It forwards removals only if it defines remove_listener as a plain forward."""
+    if "StatisticsEndpoint" not in scan:
+        raise TranslatorError("class StatisticsEndpoint not found")
+    fn = _method(scan["StatisticsEndpoint"][2], "remove_listener")
+    if fn is None:
+        return False
+    body = [s for s in fn.body if not (isinstance(s, ast.Expr) and isinstance(s.value, ast.Constant))]
+    if len(body) == 1 and isinstance(body[0], ast.Expr) and isinstance(body[0].value, ast.Call) \
+            and _is_self_attr(body[0].value.func, "endpoint", "remove_listener"):
+        return True
+    raise TranslatorError(f"StatisticsEndpoint.remove_listener is defined but is not a plain forward: `{_src(fn)[:200]}`")
+
+
 # ---- the sleep guard of remove_* -----------------------------------------------------------------------------
 def _bool_expr(e, where):
     if isinstance(e, ast.BoolOp):
@@ -411,6 +427,7 @@ def translate():
     scan = _scan()
     names = shipped(scan)
     fwd = tunnel_endpoint_forwards(scan)
+    fwd["statistics_remove"] = statistics_endpoint_forwards_remove(scan)
     guards = removal_guards(scan)
     delay = default_delay(scan)
     lines = ["/- GENERATED by tools/gen_c11.py from the working tree — do not edit -/",
@@ -421,6 +438,7 @@ def translate():
              "",
              f"def tunnelEndpointForwardsAdd : Bool := {'true' if fwd['add_listener'] and fwd['add_prefix_listener'] else 'false'}",
              f"def tunnelEndpointForwardsRemove : Bool := {'true' if fwd['remove_listener'] else 'false'}",
+             f"def statisticsEndpointForwardsRemove : Bool := {'true' if fwd['statistics_remove'] else 'false'}",
              f"def defaultRemoveDelay : Nat := {delay}",
              ""]
     for ctor in ("remCircuit", "remRelay", "remExit"):
